@@ -49,6 +49,7 @@ fn render(k: usize, c: &Value) -> String {
             // an extension marker, an addition and a version group after two root components
             "none_ext" => format!("{cont} {{ a INTEGER, b BOOLEAN, ..., c NULL, [[ d IA5String, e BOOLEAN ]] }}"),
             "addition" => format!("{cont} {{ a INTEGER, b BOOLEAN, ..., c [3] NULL, [[ d IA5String, e BOOLEAN ]] }}"),
+            "group_part" => format!("{cont} {{ a INTEGER, b BOOLEAN, ..., c NULL, [[ d [4] IA5String, e BOOLEAN ]] }}"),
             "group" => format!("{cont} {{ a INTEGER, b BOOLEAN, ..., c NULL, [[ d [4] IA5String, e [5] BOOLEAN ]] }}"),
             _ => format!("{cont} {{ a {}INTEGER, b {}BOOLEAN, c {}NULL }}", t(0), t(1), t(2)),
         };
